@@ -77,6 +77,23 @@ pub trait Host {
     fn drop_all_roots(&mut self) {}
     /// the one-shot under `key` has been consumed (its id may be reused from now on)
     fn consumed(&mut self, _key: ReqKey) {}
+    /// invariant violations noticed by the simulated shell itself
+    fn take_errors(&mut self) -> Vec<String> {
+        vec![]
+    }
+    /// bridge only: answer again under the id of an already consumed one-shot.
+    /// Returns None if this host cannot express it.
+    fn resolve_consumed(&mut self, _key: ReqKey, _v: u64) -> Option<Result<Outcome, String>> {
+        None
+    }
+    /// bridge only: the one-shot under `key` has already been answered
+    fn is_consumed(&self, _key: ReqKey) -> bool {
+        false
+    }
+    /// bridge only: (never, once, many) entries in the registry
+    fn registry_kinds(&mut self) -> Option<(usize, usize, usize)> {
+        None
+    }
 }
 
 enum Held {
@@ -616,6 +633,19 @@ where
     fn resolve(&mut self, key: ReqKey, v: u64) -> Result<Outcome, String> {
         let Some((id, op)) = self.ids.get(&key).copied() else { return Ok(Outcome::Unknown) };
         let bytes = self.encode_output(op, v);
+        // a one-shot entry is consumed by an accepted response: from then on its id may be reused
+        // Any response consumes a one-shot entry; a (wrong) response to a notification makes the
+        // registry forget it. From then on the id may be handed out again.
+        let forgets = self
+            .bridge
+            .registry()
+            .iter()
+            .any(|(i, k)| *i == id && *k != crux_core::verif::EntryKind::Many);
+        if forgets {
+            if let Some(v) = self.ids.remove(&key) {
+                self.consumed.insert(key, v);
+            }
+        }
         match self.bridge.handle_response(id, &bytes) {
             Ok(out) => {
                 self.absorb_bytes(&out)?;
@@ -664,10 +694,42 @@ where
     fn holds(&self, key: ReqKey) -> bool {
         self.ids.contains_key(&key)
     }
-    fn consumed(&mut self, key: ReqKey) {
-        if let Some(v) = self.ids.remove(&key) {
-            self.consumed.insert(key, v);
+    fn take_errors(&mut self) -> Vec<String> {
+        std::mem::take(&mut self.errors)
+    }
+    fn is_consumed(&self, key: ReqKey) -> bool {
+        self.consumed.contains_key(&key)
+    }
+    fn resolve_consumed(&mut self, key: ReqKey, v: u64) -> Option<Result<Outcome, String>> {
+        let (id, op) = self.consumed.get(&key).copied()?;
+        let bytes = self.encode_output(op, v);
+        // if the id has been handed out again the response reaches an unrelated request,
+        // whatever the call then returns
+        if self.bridge.registry().iter().any(|e| e.0 == id) {
+            let _ = crate::runner::catch(|| self.bridge.handle_response(id, &bytes));
+            return Some(Err(format!("misrouted: effect id {id} has been reused")));
         }
+        let r = crate::runner::catch(|| self.bridge.handle_response(id, &bytes));
+        // a misdirected response may have made the registry forget a notification entry
+        let present: std::collections::BTreeSet<u32> = self.bridge.registry().iter().map(|e| e.0).collect();
+        self.ids.retain(|_, (i, _)| present.contains(i));
+        Some(match r {
+            Ok(Ok(out)) => match self.absorb_bytes(&out) {
+                Ok(()) => Ok(Outcome::Accepted),
+                Err(e) => Err(e),
+            },
+            Ok(Err(_)) => Ok(Outcome::Rejected),
+            Err((loc, msg)) => Err(format!("panic:{loc}:{msg}")),
+        })
+    }
+    fn registry_kinds(&mut self) -> Option<(usize, usize, usize)> {
+        use crux_core::verif::EntryKind;
+        let reg = self.bridge.registry();
+        Some((
+            reg.iter().filter(|e| e.1 == EntryKind::Never).count(),
+            reg.iter().filter(|e| e.1 == EntryKind::Once).count(),
+            reg.iter().filter(|e| e.1 == EntryKind::Many).count(),
+        ))
     }
 }
 
